@@ -92,25 +92,25 @@ Section Station.
   (* how a reload changes the held selector *)
   Variable reload : selector -> option file -> selector.
 
-  Definition step (held : selector) (e : event) : selector * option (sres phantom) :=
+  Definition lstep (held : selector) (e : event) : selector * option (sres phantom) :=
     match e with
     | EReload r => (reload held r, None)
     | ESelect seed g lv f => (held, Some (sel_select held seed g lv f))
     end.
 
   (* one output per event (None for a reload), and the selector held afterwards *)
-  Fixpoint run (held : selector) (evs : list event) : list (option (sres phantom)) * selector :=
+  Fixpoint lrun (held : selector) (evs : list event) : list (option (sres phantom)) * selector :=
     match evs with
     | [] => ([], held)
-    | e :: r => let '(h1, o) := step held e in
-                let '(os, h2) := run h1 r in (o :: os, h2)
+    | e :: r => let '(h1, o) := lstep held e in
+                let '(os, h2) := lrun h1 r in (o :: os, h2)
     end.
 End Station.
 
 (* the code: the freshly loaded selector replaces the held one; a failed load changes nothing *)
 Definition reload_replace (held : selector) (r : option file) : selector :=
   match r with Some f => from_file f | None => held end.
-Definition station_run := run reload_replace.
+Definition station_run := lrun reload_replace.
 
 (* a variant the property rules out: the loaded generations are copied INTO the held selector
    (UpdateGeneration per generation of the new file); generations the new file dropped stay *)
@@ -119,7 +119,7 @@ Definition reload_merge (held : selector) (r : option file) : selector :=
   | Some f => fold_right (fun kv s => update_generation s (fst kv) (snd kv)) held (from_file f)
   | None => held
   end.
-Definition merge_run := run reload_merge.
+Definition merge_run := lrun reload_merge.
 
 (* the configuration in force after a history that started with file f0 *)
 Fixpoint in_force (f0 : file) (evs : list event) : file :=
